@@ -39,7 +39,7 @@ import (
 )
 
 func init() {
-	register(&Prop{ID: "C22", Gen: genC22, Run: runC22, Timeout: 300 * time.Second})
+	register(&Prop{ID: "C22", Gen: genC22, Run: runC22, Timeout: 60 * time.Second})
 }
 
 // c22Oracle: wf = is b exactly one well-formed CBOR item; hl = byte length of the
@@ -368,7 +368,7 @@ func runC22E2E(mode string, list string) string {
 	if err := cli.Sync([]pcommon.Point{pcommon.NewPointOrigin()}); err != nil {
 		return "sync:" + err.Error()
 	}
-	deadline := time.After(120 * time.Second)
+	deadline := time.After(45 * time.Second)
 	for {
 		mu.Lock()
 		n := len(out)
